@@ -269,7 +269,7 @@ fn random_string(rng: &mut Rng) -> String {
 
 /// Numbers wherever a number is accepted, from a pool of zeros and large-but-safe values.
 fn zero_slots(rng: &mut Rng) -> String {
-    const POOL: &[&str] = &["0", "0.00", "-0", "0 ", "1", "-1", "0.005", "9,999.99", "0.01", "-0.01"];
+    const POOL: &[&str] = &["0", "0.00", "-0", "0 ", "1", "-1", "0.005", "9,999.99", "0.01", "-0.01", "0,000.05", "-0,000.001", "0,000.00", "000,000", "0,000,000.5"];
     const TEMPLATES: &[&str] = &[
         "2024/01/01 t\n    A    {} USD\n    B    {} USD\n",
         "2024/01/01 t\n    A    {} USD\n    B    {} EUR\n",
